@@ -17,6 +17,8 @@ for p in props:
     pid = p["id"]
     if pid in CHECKS:
         level, tech, text, note, ref = CHECKS[pid]
+        if pid in EXTRA:
+            text = text + " " + EXTRA[pid]
         checks.append({
             "property_id": pid,
             "quick_cmd": f"./check {pid} quick",
